@@ -232,7 +232,8 @@ def run(prop, tier, seed, only_case=None, quiet=False):
     if sig in seen or len(lines) >= 25:
       continue
     seen.add(sig)
-    lines.append(f'VIOLATION property={prop} replay={path}')
+    if f'VIOLATION property={prop} replay={path}' not in lines:
+      lines.append(f'VIOLATION property={prop} replay={path}')
     if not quiet:
       print(f"  [{v['kind']}] case={v['case']} features={json.dumps(v.get('features'), default=str)[:600]}")
       if v.get('detail'):
